@@ -1,7 +1,7 @@
 """Contracts for the command plugins and the drivers they call: C04, C05, C09, C10, C15, C16, C17."""
 import z3
 from pyvc import ty as T
-from pyvc.core import Loop, V
+from pyvc.core import Loop, V, Unsupported
 
 
 def install(eng):
@@ -151,14 +151,51 @@ def install(eng):
 
     eng.ctx_hooks["suppress"] = Suppress()
     eng.rules[contextlib.suppress] = lambda e, args, kw, st, sink, n: iter([(st, V(T.PY, ("suppress", tuple(a.z for a in args))))])
+    # ---- clean_logs (C10, last sentence): the body is verified. Vocabulary: os.listdir(d) is a list of base names
+    # (abstract sort FileName, total: cli.main creates the log directory), basename of a base name is itself,
+    # splitext(f) = (Stem(f), extension); LogFile(wd, name, ext) is BY DEFINITION the path
+    # join(wd, ".gwf", "logs", str(name) + ext), i.e. the project's log file of that target name.
+    pos = vc.f_path_of_str
+    wd_, nm_, ex_ = vc.Path.fresh("wd"), vc.Name.fresh("nm"), z3.String("ex!lf")
+    f_logdir = z3.Function("logdir", vc.Path.sort(), vc.Path.sort())
+    eng.axioms.append(z3.ForAll([wd_], f_logdir(wd_) == vc.f_join(vc.f_join(wd_, pos(z3.StringVal(".gwf"))),
+                                                                  pos(z3.StringVal("logs")))))
+    eng.axioms.append(z3.ForAll([wd_, nm_, ex_], vc.f_logfile(wd_, nm_, ex_) == vc.f_join(
+        f_logdir(wd_), pos(z3.Concat(eng.to_str(V(vc.Name, nm_)).z, ex_)))))
+    eng.fn("LogDir")(lambda e, st, wd: V(vc.Path, f_logdir(wd.z)))
+    f_ext = z3.Function("ext", LogName.sort(), z3.StringSort())
+
+    def r_listdir(e, args, kw, st, sink, n):
+        d = e.coerce(args[0], vc.Path, n)
+        lt = T.ListV(LogName)
+        r, st = e.fresh(lt, "listing", st)
+        r.aux = ("unique",)
+        yield st.assume(lt.elems(r.z) == vc.f_listdir(d.z)), r
+
+    def r_basename(e, args, kw, st, sink, n):
+        if args[0].ty != LogName:
+            raise Unsupported(f"os.path.basename of {args[0].ty}", n)
+        yield st, args[0]                      # os.listdir returns base names
+
+    def r_splitext(e, args, kw, st, sink, n):
+        if args[0].ty != LogName:
+            raise Unsupported(f"os.path.splitext of {args[0].ty}", n)
+        yield st, e.mk_tuple([V(vc.Name, vc.f_stem(args[0].z)), V(T.STR, f_ext(args[0].z))])
+
+    eng.rules[os.listdir] = r_listdir
+    eng.rules[os.path.basename] = r_basename
+    eng.rules[os.path.splitext] = r_splitext
+    ONLY_GONE = ("forall(lambda p: implies(p in fs_removed and p not in old(fs_removed), "
+                 "exists(lambda f: f in ListDir(LogDir(working_dir)) and Stem(f) not in dom(graph.targets) and "
+                 "(p == LogFile(working_dir, Stem(f), '.stdout') or p == LogFile(working_dir, Stem(f), '.stderr')), "
+                 "FileName)), Path)")
     eng.contract(
-        "gwf.plugins.run:clean_logs", params={"working_dir": vc.Path, "graph": G}, trusted=True,
+        "gwf.plugins.run:clean_logs", params={"working_dir": vc.Path, "graph": G},
+        locals={"target_set": T.SetT(vc.Name), "log_files": T.SetT(vc.Name)},
         modifies=["ghost:fs_removed"],
-        # C10: only logs whose base name is not a target of the workflow are removed
-        ensures=["forall(lambda p: implies(p in fs_removed and p not in old(fs_removed), "
-                 "exists(lambda f: Stem(f) not in dom(graph.targets) and (p == LogFile(working_dir, Stem(f), '.stdout') "
-                 "or p == LogFile(working_dir, Stem(f), '.stderr')), FileName)), Path)"],
-        note="TODO verify body (listdir/splitext/basename string level)")
+        # C10: only log files of the project whose base name is not a target of the workflow are removed
+        ensures=[ONLY_GONE], loops={1: Loop(inv=[ONLY_GONE])}, serves=["C10"],
+        note="assumes the log directory exists (created by cli.main); an OSError from os.remove is suppressed")
 
     GRAPHMODS = ["Graph.targets", "Graph.provides", "Graph.dependencies", "Graph.dependents", "Graph.unresolved",
                  "ghost:fin", "ghost:clock"]
